@@ -1024,6 +1024,8 @@ package dig
 //@   modifies @graphgrow
 //@   allocates
 //@   ensures[C10:group-parameter-is-a-slice,C14:group-parameter-is-a-slice] err == nil ==> pg.Type == f.Type && kind(pg.Type) == kSlice()
+//@   ensures[C11:a-group-parameter-is-soft-exactly-when-its-own-tag-says-so,C10:a-group-parameter-is-soft-exactly-when-its-own-tag-says-so] err == nil ==> reached(parseGroupString_1) && pg.Soft == ret(parseGroupString_1, 0).Soft && pg.Group == ret(parseGroupString_1, 0).Name
+//@   ensures[C16:a-group-parameter-gets-an-order-map-of-its-own,C05:a-group-parameter-gets-an-order-map-of-its-own] err == nil ==> pg.orders != nil && fresh(pg.orders)
 //@   ensures[C14:a-rejected-group-parameter-adds-no-graph-node,C06:a-rejected-group-parameter-adds-no-graph-node] err != nil ==> unchangedAll()
 //@   ensures[C06:parsing-a-group-parameter-only-appends-graph-nodes] graphsOnlyGrow() && treeInv() && (forall m map[*Scope]int :: existed(m) ==> mapeq(m))
 
@@ -1106,6 +1108,7 @@ package dig
 //@   ensures[C15:result-field-keeps-its-index] rof.FieldIndex == idx
 //@   ensures[C15:result-field-has-a-result] err == nil ==> okResult(rof.Result)
 //@   ensures[C14:unexported-result-field-is-rejected] f.PkgPath != "" ==> err != nil
+//@   site call dig.newResult #1: assert[C15:a-field-keeps-the-constructors-group-and-as-options,C09:a-field-keeps-the-constructors-group-and-as-options] $arg0 == f.Type && $arg1.As == opts.As && $arg1.Group == opts.Group
 // C15: a group named by the field tag means what the same group named by the
 // Group option means, also under an As option: newResult() feeds the group of
 // the first As interface then (finding F15: the tag path ignores As)
